@@ -1,6 +1,6 @@
 import os
 SOLVER = os.environ.get("C06_SOLVER", "cadical")
-KF = {"KF_TIMER_USEC": None}   # known-finding blocking defines in force (see findings/)
+KF = {"KF_TIMER_USEC": None, "KF_FLAGS_MASK": None}   # known-finding blocking defines in force (see findings/)
 
 META = {
     "bounds": "",
@@ -68,5 +68,27 @@ def lemma_jobs(tier):
                         "desc": "Euclid form == 128-bit product (ns: C11 6.5.5p6, not re-proved), nsec range, time_t fit"})
     return out
 
+def validate_jobs(tier):
+    return [{
+        "name": "validate", "src": "validate.c", "defs": dict(KF), "unwind": 6, "solver": SOLVER,
+        "shape": "one call of any of the 8 public entry points; all event/flags/fflags/data/ident values, NULL event/udata/"
+                 "callback/thread, any previous tpdata",
+        "desc": "malformed tuple (per threadpool.h) => error return, zero system calls, udata untouched, no callback",
+    }]
+
+def gating_jobs(tier):
+    out = []
+    shapes = [("R", "axax"), ("T", "axax")]
+    for ids, pat in shapes:
+        out.append({
+            "name": "gating-%s-%s" % (ids, pat), "src": "gating.c", "defs": dict(KF, PATTERN='"%s"' % pat, IDS='"%s"' % ids),
+            "unwind": 10, "unwindset": ["tpt_loop.0:3"], "solver": SOLVER, "timeout": 300,
+            "shape": "identifiers %s (R/W/T/P on the worker, lower case on the pool virtual thread), history %s (a,b = add/"
+                     "enable/disable/delete on id 0/1; x,y = epoll round reporting id 0/1; n = empty round)" % (ids, pat),
+            "desc": "callback iff registered and enabled (reference automaton); ONESHOT gone, DISPATCH silent until "
+                    "re-enabled, EOF/ERROR flags, kernel-side state matches after every step",
+        })
+    return out
+
 def jobs(tier):
-    return timer_jobs(tier) + lemma_jobs(tier)
+    return timer_jobs(tier) + lemma_jobs(tier) + validate_jobs(tier) + gating_jobs(tier)
